@@ -37,7 +37,7 @@ def required_cells(tier):
     return {"env:ancilla": 6, "env:pttempo": 2, "nenv:1": 3, "nenv:2": 3,
             "nenv:3": 1, "M:1": 1, "M:2": 1, "M:3": 1, "N:1": 1,
             "dissipator:param": 3, "deriv:user": 2, "deriv:numeric": 3,
-            "target:callable": 2, "target:array": 3, "callables-return-stored-arrays": 4, "pt:gauged": 4, "no-drift&zero-controls": 2, "shared-rate-callable": 4, "initial-matrix:non-hermitian": 2, "history:two-dt": 1, "start!=0": 5, "params:structured": 3, "lastbond:closed": 2, "lastbond:cap": 2,
+            "target:callable": 2, "target:array": 3, "callables-return-stored-arrays": 4, "pt:gauged": 4, "no-drift&zero-controls": 2, "shared-rate-callable": 4, "initial-matrix:non-hermitian": 2, "history:two-dt": 1, "start!=0": 5, "no-lindblad-terms": 2, "params:structured": 3, "lastbond:closed": 2, "lastbond:cap": 2,
             "gradient_entries_compared": 100}
 
 
@@ -54,8 +54,11 @@ class Model:
     """Parameterised dissipative system with M parameters."""
 
     def __init__(self, rng, d, m, param_diss, nodrift=False,
-                 shared_rate=False):
+                 shared_rate=False, closed_system=False):
         self.d, self.m = d, m
+        # a system without any Lindblad term (Hamiltonian controls with
+        # complex matrix elements only)
+        self.closed_system = closed_system
         self.h0 = gen.rand_herm(rng, d, 0.5)
         self.hk = [gen.rand_herm(rng, d, 0.8) for _ in range(m)]
         self.g0 = float(rng.uniform(0.1, 0.3))
@@ -90,6 +93,8 @@ class Model:
         return self.a0 + (p[-1] * self.a1 if self.param_diss else 0.0)
 
     def liou(self, *p):
+        if self.closed_system:
+            return gen.lindblad_super(self.h(*p), [], [])
         gs, ls = [self.gamma(*p)], [self.lop(*p)]
         if self.a2 is not None:
             gs.append(self.gamma(*p))
@@ -142,6 +147,10 @@ class Model:
                 for k, x in enumerate(p):
                     out = out + x * self.hk[k]
                 return out
+        if self.closed_system:
+            return oqupy.ParameterizedSystem(
+                self.fixed_arity(h),
+                propagator_derivatives=self.user_derivs() if user else None)
         rate = self.fixed_arity(self.gamma)
         gammas, lops = [rate], [self.fixed_arity(lop)]
         if self.a2 is not None:
@@ -223,8 +232,11 @@ def run_ancilla(case):
     dt = float(rng.choice([0.1, 0.2]))
     nodrift = bool(i % 10 == 4)
     shared_rate = bool(i % 5 == 2)
+    closed_system = bool(i % 12 == 7)
+    if closed_system:
+        param_diss, shared_rate, nodrift = False, False, False
     model = Model(rng, d, m, param_diss, nodrift=nodrift,
-                  shared_rate=shared_rate)
+                  shared_rate=shared_rate, closed_system=closed_system)
     envs = [ancilla.random_env(rng, d, 2, ["unitary", "channel"][j % 2], 0.8)
             for j in range(nenv)]
     # two equally exact representations: open last bond closed by the cap
@@ -304,6 +316,8 @@ def run_ancilla(case):
         cells.append("pt:gauged")
     if nodrift:
         cells.append("no-drift&zero-controls")
+    if closed_system:
+        cells.append("no-lindblad-terms")
     if shared_rate:
         cells.append("shared-rate-callable")
     if general_rho0:
